@@ -849,13 +849,18 @@ int dispatch_printed_messages(const char* messages,
                     STACKALLOC(rtosc_arg_t, vals, val_max ? val_max : 1);
                     STACKALLOC(char, argstr, val_max+1);
 
+                    // rtosc_amessage() reads one rtosc_arg_t per argument
+                    // that carries data: 'T', 'F', 'N' and 'I' have none
+                    size_t n_vals = 0;
                     for(i = 0;
                         itr.i - last_pos < (size_t)nargs &&
                             i < elem_limit;
                         ++i)
                     {
                         cur = rtosc_arg_val_itr_get(&itr, &buffer);
-                        vals[i] = cur->val;
+                        if(cur->type != 'T' && cur->type != 'F' &&
+                           cur->type != 'N' && cur->type != 'I')
+                            vals[n_vals++] = cur->val;
                         argstr[i] = cur->type;
                         rtosc_arg_val_itr_next(&itr);
                     }
